@@ -39,31 +39,32 @@ SPDX_SNIPPET_INDICATOR = b"SPDX-SnippetBegin"
 
 _LOGGER = logging.getLogger(__name__)
 
-_END_PATTERN = r"{}$".format(
-    "".join(
-        {
-            r"(?:{})*".format(item)  # pylint: disable=consider-using-f-string
-            for item in chain(
-                (
-                    re.escape(style.MULTI_LINE.end)
-                    for style in _all_style_classes()
-                    if style.MULTI_LINE.end
-                ),
-                # These are special endings which do not belong to specific
-                # comment styles, but which we want to nonetheless strip away
-                # while parsing.
-                (
-                    ending
-                    for ending in [
+# One starred alternation over a sorted list: the order of the alternatives
+# cannot change what is matched, and the pattern does not depend on the
+# iteration order of a set (i.e. on the string hash seed).
+_END_PATTERN = r"(?:{})*$".format(
+    "|".join(
+        sorted(
+            set(
+                chain(
+                    (
+                        re.escape(style.MULTI_LINE.end)
+                        for style in _all_style_classes()
+                        if style.MULTI_LINE.end
+                    ),
+                    # These are special endings which do not belong to
+                    # specific comment styles, but which we want to
+                    # nonetheless strip away while parsing.
+                    (
                         # ex: <tag value="Copyright Jane Doe">
                         r'"\s*/*>',
                         r"'\s*/*>",
                         # ex: [SPDX-License-Identifier: GPL-3.0-or-later] ::
                         r"\]\s*::",
-                    ]
-                ),
+                    ),
+                )
             )
-        }
+        )
     )
 )
 _LICENSE_IDENTIFIER_PATTERN = re.compile(
